@@ -597,6 +597,35 @@ func encryptHonouredRule(c *Ctx, r *Report, an *Anchors, rule string) {
 		r.Bad(rule, cl.Name()+":encrypt-test", c.Pos(cl.Pos()), "no test of the --encrypt flag guards a call of the mode switch: the flag has no effect")
 		return
 	}
+	// the mode switch depends on the --encrypt flag and the key-file path only
+	for _, se := range callsIn(cl, func(k string, _ *ssa.Call) bool { return k == c.pkgFn("SetShouldEncrypt") }) {
+		var extra []string
+		for _, f := range allFacts(se.Block()) {
+			if ph, ok := f.Cond.(*ssa.Phi); ok && len(phiDisjunction(ph, f.Pol)) >= 1 {
+				continue
+			}
+			if name, ok := an.flagOfValue(cl, f.Cond); ok && name == "encrypt" && f.Pol {
+				continue
+			}
+			if bo, ok := f.Cond.(*ssa.BinOp); ok && (bo.Op == token.NEQ || bo.Op == token.EQL) {
+				okFlag := false
+				for _, pair := range [][2]ssa.Value{{bo.X, bo.Y}, {bo.Y, bo.X}} {
+					if isEmptyStringConst(pair[1]) {
+						if name, ok := an.flagOfValue(cl, pair[0]); ok && name == "encryptionKeyFile" && (bo.Op == token.NEQ) == f.Pol {
+							okFlag = true
+						}
+					}
+				}
+				if okFlag {
+					continue
+				}
+			}
+			extra = append(extra, describeCond(f.Cond))
+		}
+		r.Check(len(extra) == 0, rule, cl.Name()+":encrypt-switch-guard", c.InstrPos(se),
+			"encrypt mode is switched on whenever --encrypt is given with a key-file path, independently of the input channel",
+			fmt.Sprintf("the encrypt-mode switch additionally depends on %v: under that condition --encrypt is accepted and silently ignored", extra))
+	}
 	streamCallers := map[string]bool{}
 	if an.StreamFn != nil {
 		for _, call := range c.callersOf(an.StreamFn) {
